@@ -50,6 +50,7 @@ def check(case):
 
 
 def _multi_clause(prog):
+    prog = sem.expand(prog)
     cnt = {}
     for s in prog:
         if s[0] in ("fact", "rule"):
@@ -74,6 +75,8 @@ def _strategy(nseeds):
 
 
 KNOWN_CLASSES = {
+    "cyclic_or_complement": lambda case, failure: gp.cyclic_body_disjunction_with_complement(case["prog"]),
+    "zero_prob_or_complementary_body": lambda case, failure: gp.zero_prob_or_complementary_body(case["prog"]),
     "negcycle_fp": lambda case, failure: gp.neg_on_cyclic_goal_under_active_cycle(case["prog"]),
     "neg_under_cycle": lambda case, failure: gp.neg_under_active_cycle(case["prog"]),
     "ad_cyclic_complement": lambda case, failure: gp.cyclic_multihead_ad_with_complementary_body(case["prog"]),
